@@ -186,6 +186,7 @@ type Action struct {
 	Runtime  []Action `json:"runtime,omitempty"`
 	Salt     uint64   `json:"salt,omitempty"`
 	ThenCall string   `json:"then_call,omitempty"`
+	Raw      string   `json:"raw,omitempty"` // returnraw: hex runtime code
 }
 
 type resolver func(ref string) common.Address
@@ -279,6 +280,10 @@ func compileInto(a *asm, prog []Action, res resolver) {
 			terminalCode(a, ac.Op)
 		case "return":
 			rt := compile(ac.Runtime, res)
+			a.mstoreBytes(0, rt)
+			a.pushInt(uint64(len(rt))).pushInt(0).op(opRETURN)
+		case "returnraw":
+			rt := common.FromHex(ac.Raw)
 			a.mstoreBytes(0, rt)
 			a.pushInt(uint64(len(rt))).pushInt(0).op(opRETURN)
 		case "stake", "unstake":
